@@ -214,25 +214,25 @@ func (f *Frame) binop(x *ssa.BinOp) {
 		var r string
 		switch x.Op {
 		case token.ADD:
-			r = fmt.Sprintf("(fp.add RNE %s %s)", a, b)
+			r = e.fop("add", a, b)
 		case token.SUB:
-			r = fmt.Sprintf("(fp.sub RNE %s %s)", a, b)
+			r = e.fop("sub", a, b)
 		case token.MUL:
-			r = fmt.Sprintf("(fp.mul RNE %s %s)", a, b)
+			r = e.fop("mul", a, b)
 		case token.QUO:
-			r = fmt.Sprintf("(fp.div RNE %s %s)", a, b)
+			r = e.fop("div", a, b)
 		case token.EQL:
-			r = fmt.Sprintf("(fp.eq %s %s)", a, b)
+			r = e.fop("eq", a, b)
 		case token.NEQ:
-			r = fmt.Sprintf("(not (fp.eq %s %s))", a, b)
+			r = "(not " + e.fop("eq", a, b) + ")"
 		case token.LSS:
-			r = fmt.Sprintf("(fp.lt %s %s)", a, b)
+			r = e.fop("lt", a, b)
 		case token.LEQ:
-			r = fmt.Sprintf("(fp.leq %s %s)", a, b)
+			r = e.fop("leq", a, b)
 		case token.GTR:
-			r = fmt.Sprintf("(fp.gt %s %s)", a, b)
+			r = e.fop("gt", a, b)
 		case token.GEQ:
-			r = fmt.Sprintf("(fp.geq %s %s)", a, b)
+			r = e.fop("geq", a, b)
 		}
 		if r == "" {
 			f.bind(x, f.havocVal(x.Type(), "fop"))
@@ -339,6 +339,11 @@ func (f *Frame) binop(x *ssa.BinOp) {
 				r = fmt.Sprintf("(= (i_tag %s) 0)", a)
 			} else if isNilConst(x.X) {
 				r = fmt.Sprintf("(= (i_tag %s) 0)", b)
+			} else if mi, ok := x.Y.(*ssa.MakeInterface); ok && isEmptyStruct(mi.X.Type()) {
+				// comparison with a value of an empty struct type: equal iff same dynamic type
+				r = fmt.Sprintf("(= (i_tag %s) %d)", a, e.S.tagOf(mi.X.Type()))
+			} else if mi, ok := x.X.(*ssa.MakeInterface); ok && isEmptyStruct(mi.X.Type()) {
+				r = fmt.Sprintf("(= (i_tag %s) %d)", b, e.S.tagOf(mi.X.Type()))
 			} else {
 				hv := f.havocVal(types.Typ[types.Bool], "ifaceeq")
 				e.assert(fmt.Sprintf("(=> (= %s %s) %s)", a, b, hv.T))
@@ -375,7 +380,7 @@ func (f *Frame) unop(x *ssa.UnOp) {
 		f.def(x, not(f.get(x.X).T))
 	case token.SUB:
 		if isFloat(x.Type()) {
-			f.def(x, "(fp.neg "+f.get(x.X).T+")")
+			f.def(x, e.fop("neg", f.get(x.X).T))
 		} else {
 			f.def(x, "(- "+f.get(x.X).T+")")
 		}
@@ -421,9 +426,9 @@ func (f *Frame) convert(x *ssa.Convert) {
 		}
 		f.vals[x] = Val{T: v.T}
 	case isIntType(from) && isFloat(to):
-		f.def(x, fmt.Sprintf("((_ to_fp 11 53) RNE (to_real %s))", v.T))
+		f.def(x, e.fop("i2f", v.T))
 	case isFloat(from) && isIntType(to):
-		f.def(x, fmt.Sprintf("(to_int (fp.to_real (fp.roundToIntegral RTZ %s)))", v.T))
+		f.def(x, e.fop("f2i", v.T))
 		e.note("float->int conversion of NaN/Inf/out-of-range values is implementation-defined in Go; modelled as to_int of the truncated real")
 	case isFloat(from) && isFloat(to):
 		f.vals[x] = Val{T: v.T}
@@ -754,6 +759,16 @@ func (f *Frame) ret(x *ssa.Return) {
 	}
 	env := f.specEnv(f.heap, nil, nil)
 	f.bindResults(env, f.fn, vals)
+	if e.con.Handler && f.recoveredVal != "" {
+		for i, c := range e.con.OnPanic {
+			t, err := env.evalBool(c.Expr)
+			if err != nil {
+				e.unsupp("onpanic: " + err.Error())
+				continue
+			}
+			e.addObl("onpanic", clauseLabel(c, i), f.curReach, fmt.Sprintf("(=> (not (= (i_tag %s) 0)) %s)", f.recoveredVal, t), x.Pos(), c.Src, clauseProps(c, f.props()))
+		}
+	}
 	if e.con.NoReturn {
 		e.addObl("noreturn", "", f.curReach, "false", x.Pos(), "declared noreturn: no normal return may be reachable", f.props())
 	}
@@ -1108,4 +1123,9 @@ func (f *Frame) zeroGhostFields(t types.Type, ref string) {
 		hv := e.S.heapVar("F!"+key+"!$"+name, "(Array Int "+e.S.sortOf(ty)+")")
 		e.hset(f.heap, hv, fmt.Sprintf("(store %s %s %s)", e.hget(f.heap, hv), ref, e.S.zero(ty)))
 	}
+}
+
+func isEmptyStruct(t types.Type) bool {
+	st, ok := t.Underlying().(*types.Struct)
+	return ok && st.NumFields() == 0
 }
